@@ -1620,6 +1620,26 @@ impl<'a> HistoryIterator<'a> {
 	///
 	/// After this call, inner iterator is at previous user key (or invalid).
 	fn collect_user_key_backward(&mut self) -> Result<bool> {
+		// A key with nothing to show (hard-deleted, only filtered tombstones, nothing in
+		// the timestamp range, nothing visible) must not end the walk: go on with the
+		// key before it.
+		loop {
+			if self.collect_one_user_key_backward()? {
+				return Ok(true);
+			}
+			if self.limit_reached || !self.inner_valid() {
+				return Ok(false);
+			}
+			let user_key = self.inner_key().user_key().to_vec();
+			if !self.user_key_within_lower_bound(&user_key) {
+				return Ok(false);
+			}
+		}
+	}
+
+	/// Collects the versions of the user key the inner iterator stands on; `false`
+	/// when that key has nothing to show (the inner iterator is then on the key before).
+	fn collect_one_user_key_backward(&mut self) -> Result<bool> {
 		self.backward_buffer.clear();
 
 		if !self.inner_valid() {
@@ -1636,7 +1656,7 @@ impl<'a> HistoryIterator<'a> {
 			while self.inner_valid() && self.inner_key().user_key() == user_key.as_slice() {
 				self.inner_prev()?;
 			}
-			return self.collect_user_key_backward();
+			return Ok(false); // the caller goes on with the key before
 		}
 
 		// Collect all visible versions
